@@ -1046,9 +1046,9 @@ class TT():
 
                 core_now = core_next
             if squared:
-                return tn.linalg.norm(core_next)**2
+                return tn.linalg.norm(core_now)**2
             else:
-                return tn.linalg.norm(core_next)
+                return tn.linalg.norm(core_now)
 
     def sum(self, index=None):
         """
